@@ -29,6 +29,14 @@ CLAIMED = {
         'Trusted: pathlib.Path as normalised POSIX strings, parso Grammar.refactor, difflib, builtin sorted; '
         'get_diff body and extract.py exception-escape obligations are listed as not decided until built.',
         'contract-based deductive verification (PyVC) + AST effect obligations', 'DESIGN.md 6/C07'),
+    'C10': (
+        'Deductive: Importer.__init__ proved equal to importlib._resolve_name on name sequences (level 0 keeps the '
+        'path, 0 < level <= len(package) prepends package[:len-level+1]); the candidate generator of '
+        'transform_path_to_dotted proved: every derived dotted name, joined to the sys.path entry it came from, is '
+        'the module path (directory prefix) with non-empty components.',
+        'Trusted: importlib finders (the oracle jedi itself calls), os.path.sep == "/", str split/join inverse, '
+        're.sub pure; import_module ordering contracts not yet under contract (not_decided).',
+        'contract-based deductive verification (PyVC VC generation from the real AST + z3/cvc5)', 'DESIGN.md 6/C10'),
 }
 
 NOT_APPLICABLE = {
